@@ -152,6 +152,198 @@ def observe(cls_name: str, s: str, upto: int) -> dict:
     return obs
 
 
+# ------------------------------------------------------------------ cursors that have MOVED (state independence)
+# observe() asks every accessor of a cursor that is fresh or was just sent to the offset it is asked about.  The answers
+# for an EXPLICIT offset must not depend on where the cursor (or the legacy Buffer, which carries a position itself)
+# stands, however it got there, and the forms WITHOUT an argument must answer for the cursor's own position; none of the
+# accessors (nor the tracer's lookahead()/lookahead_pos()) may move the cursor.
+MOVERS = ('goto', 'move', 'next', 'clone', 'copy', 'ctor', 'back')
+BUF_MOVERS = ('goto', 'move', 'next', 'back')
+
+
+def parked_cursor(t, park: int, how: str):
+    """a cursor of the input t that stands at offset park, brought there by `how`"""
+    import copy
+    c = t.newcursor()
+    if how == 'goto':
+        c.goto(park)
+    elif how == 'move':
+        c.move(park)
+    elif how == 'next':
+        for _ in range(park):
+            c.next()
+    elif how == 'clone':
+        c.goto(park)
+        c = c.clone()
+    elif how == 'copy':
+        c.goto(park)
+        c = copy.copy(c)
+    elif how == 'ctor':
+        c = type(c)(t, pos=park)
+    else:                       # all the way to the end and back
+        c.goto(len(c))
+        c.move(park - len(c))
+    return c
+
+
+def park_buffer(t, park: int, how: str):
+    if how == 'goto':
+        t.goto(park)
+    elif how == 'move':
+        t.goto(0)
+        t.move(park)
+    elif how == 'next':
+        t.goto(0)
+        for _ in range(park):
+            t.next()
+    else:
+        t.goto(len(t.text))
+        t.move(park - len(t.text))
+
+
+def moved_plan(s: str, idx: int, exhaustive: bool) -> list[tuple[int, str]]:
+    """[(park offset, how the cursor gets there)] - every offset for short texts, a spread for long ones; the way of
+    moving rotates with the case index so that every pair (way, park class) comes up"""
+    n = len(s)
+    parks = list(range(n + 1)) if exhaustive or n <= 6 else sorted({(idx * 7 + 3) % (n + 1), n if idx % 2 else n // 2, 1})
+    return [(p, MOVERS[(idx + k + p) % len(MOVERS)]) for k, p in enumerate(parks)]
+
+
+def observe_moved(cls_name: str, s: str, plan) -> list[dict]:
+    """for every (park, how): the answers of a cursor standing at park for every explicit offset 0..len+1, the forms
+    without argument, get_line, and where the cursor stands afterwards"""
+    from tatsu.input.buffer import Buffer
+    from tatsu.input.textlines import TextLines
+    cls = TextLines if cls_name == 'TextLines' else Buffer
+    n = len(s)
+    out = []
+    for park, how in plan:
+        t = cls(s, whitespace='')
+        try:
+            c = parked_cursor(t, park, how)
+        except Exception as e:  # noqa: BLE001
+            out.append({'park': park, 'how': how, 'broken': 'raise:' + type(e).__name__})
+            continue
+        rec = {'park': park, 'how': how, 'pos': c.pos, 'explicit': {}, 'noarg': {}, 'moved_by': []}
+        for name, f in (('cursor.lineinfo', c.lineinfo), ('cursor.lineat', c.lineat), ('cursor.poscol', c.poscol)):
+            vals = []
+            for p in range(n + 2):
+                vals.append(_call(f, p))
+                if c.pos != rec['pos'] and name not in rec['moved_by']:
+                    rec['moved_by'].append(name)
+                    c.goto(rec['pos'])
+            rec['explicit'][name] = vals
+            rec['noarg'][name] = _call(f)
+        rec['noarg']['cursor.line'] = (c.pos, _prop(c, 'line'))
+        rec['noarg']['cursor.col'] = (c.pos, _prop(c, 'col'))
+        nl = len(t.lines)
+        rec['get_line'] = [_call(c.get_line, k) for k in range(nl)]
+        rec['get_line()'] = _call(c.get_line)
+        rec['get_lines'] = _call(c.get_lines, 0, nl)
+        for name in ('lookahead', 'lookahead_pos', 'atend', 'ateol', 'peek', 'lineinfo', 'lineat', 'poscol', 'get_line'):
+            before = c.pos
+            _call(getattr(c, name))
+            if c.pos != before:
+                rec['moved_by'].append(name + '()')
+                c.goto(before)
+        if cls_name == 'Buffer':
+            bhow = BUF_MOVERS[(park + len(how)) % len(BUF_MOVERS)]
+            park_buffer(t, park, bhow)
+            rec['bhow'] = bhow
+            rec['bpos'] = t.pos
+            for name, f in (('buf.lineinfo', t.lineinfo), ('buf.posline', t.posline), ('buf.poscol', t.poscol)):
+                rec['explicit'][name] = [_call(f, p) for p in range(n + 2)]
+                rec['noarg'][name] = _call(f)
+            rec['noarg']['buf.line'] = (t.pos, _prop(t, 'line'))
+            rec['noarg']['buf.col'] = (t.pos, _prop(t, 'col'))
+            rec['buf.get_line'] = [_call(t.get_line, k) for k in range(nl)]
+            rec['buf.get_line()'] = _call(t.get_line)
+            if t.pos != rec['bpos']:
+                rec['moved_by'].append('Buffer accessors')
+            # the buffer's own position must not leak into a cursor of it either
+            c2 = t.newcursor()
+            rec['explicit']['cursor.lineinfo@buffer-moved'] = [_call(c2.lineinfo, p) for p in range(n + 2)]
+        out.append(rec)
+    return out
+
+
+NOARG_OF = {'cursor.line': 'cursor.line', 'cursor.col': 'cursor.col', 'buf.line': 'buf.line', 'buf.col': 'buf.col'}
+
+
+def moved_findings(cls_name: str, s: str, idx: int, exhaustive: bool, fresh: dict | None = None, moved=None):
+    """implementation-only oracle: [(signature, what, detail)] - a moved cursor answers like a fresh one"""
+    if fresh is None:
+        fresh = observe(cls_name, s, len(s) + 1)
+    if moved is None:
+        moved = observe_moved(cls_name, s, moved_plan(s, idx, exhaustive))
+    n = len(s)
+    lines = ref_lines(s)
+    out = []
+    for rec in moved:
+        park, how = rec['park'], rec['how']
+        here = f'{cls_name}({s!r}) cursor brought to {park} by {how}'
+        if 'broken' in rec:
+            out.append((f'state:{cls_name}:cannot-move:{how}:{rec["broken"]}', f'{here}: {rec["broken"]}', {'park': park, 'how': how}))
+            continue
+        if rec['pos'] != park:
+            out.append((f'state:{cls_name}:position-after:{how}', f'{here} stands at {rec["pos"]}', {'park': park, 'how': how}))
+            continue
+        for name in rec['moved_by']:
+            out.append((f'state:{cls_name}:{name}:moves-the-cursor', f'{here}: {name} left it somewhere else',
+                        {'park': park, 'how': how}))
+        for acc, vals in rec['explicit'].items():
+            base = acc.split('@')[0]
+            for p in range(n + 2):
+                if vals[p] != fresh['acc'][base][p]:
+                    cls0 = 'zero' if p == 0 else ('end' if p >= n else 'mid')
+                    out.append((f'state:{cls_name}.{acc}:explicit-offset-{cls0}:depends-on-position',
+                                f'{here}: {acc.split("@")[0]}({p}) = {vals[p]!r}, a fresh cursor says {fresh["acc"][base][p]!r}',
+                                {'park': park, 'how': how, 'pos': p, 'bhow': rec.get('bhow')}))
+                    break
+        for acc, v in rec['noarg'].items():
+            pp = rec['bpos'] if acc.startswith('buf.') else park
+            want = fresh['acc'][acc][pp]
+            if v != want:
+                out.append((f'state:{cls_name}.{acc}:no-argument:not-the-own-position',
+                            f'{here}: {acc}() = {v!r}, for its own position {pp} a fresh cursor says {want!r}',
+                            {'park': park, 'how': how, 'bhow': rec.get('bhow')}))
+        for key in ('get_line', 'buf.get_line'):
+            if key in rec and rec[key] != lines:
+                out.append((f'state:{cls_name}.{key}:explicit-line', f'{here}: {key}(k) for every k = {rec[key]!r}, the lines are {lines!r}',
+                            {'park': park, 'how': how}))
+        if rec['get_lines'] != lines:
+            out.append((f'state:{cls_name}.get_lines', f'{here}: get_lines(0, {len(lines)}) = {rec["get_lines"]!r}', {'park': park, 'how': how}))
+        for key, pp in (('get_line()', park), ('buf.get_line()', rec.get('bpos'))):
+            if key in rec and pp is not None and pp < n and rec[key] != ref_info(s, pp, 'clamp')[4]:
+                out.append((f'state:{cls_name}.{key}:not-the-own-line', f'{here}: {key} = {rec[key]!r}, offset {pp} lies in {ref_info(s, pp, "clamp")[4]!r}',
+                            {'park': park, 'how': how}))
+    return out
+
+
+def moved_model_diffs(cls_name: str, s: str, moved: list[dict], q1, q0, var) -> list[tuple]:
+    """L1 on moved cursors: the model's answer for the offset (explicit, or the cursor's own) whatever the position"""
+    n = len(s)
+    diffs = []
+    for rec in moved:
+        if 'broken' in rec:
+            continue
+        for acc, vals in rec['explicit'].items():
+            base = acc.split('@')[0]
+            q = q1 if var.g(cls_name, base) else q0
+            for p in range(n + 2):
+                want = model_expect(cls_name, base, q, p, n, var.colfix.get((cls_name, base), False))
+                if vals[p] != want:
+                    diffs.append((f'moved:{acc}({p}) with the cursor at {rec["park"]} by {rec["how"]}', vals[p], want))
+                    break
+        for acc, v in rec['noarg'].items():
+            pp = rec['bpos'] if acc.startswith('buf.') else rec['pos']
+            q = q1 if var.g(cls_name, acc) else q0
+            want = model_expect(cls_name, acc, q, pp, n, var.colfix.get((cls_name, acc), False))
+            if v != want:
+                diffs.append((f'moved:{acc}() with the cursor at {pp} by {rec["how"]}', v, want))
+    return diffs
+
+
 # accessor -> (family, guard key) ; family decides the model column and the oracle reading
 FAMILY = {
     'TextLines': {'cursor.lineinfo': 'lineinfo', 'cursor.lineat': 'lineat', 'cursor.poscol': 'poscol',
@@ -307,7 +499,7 @@ def gen_cases(chk: Check) -> list[str]:
     return cases
 
 
-def run_case_batch(chk: Check, mr: ModelRun, var: Variants, cases: list[str], seen_sigs: dict):
+def run_case_batch(chk: Check, mr: ModelRun, var: Variants, cases: list[str], seen_sigs: dict, first: int = 0, nexh: int = 0):
     reqs = []
     for s in cases:
         up = len(s) + 1
@@ -370,6 +562,14 @@ def run_case_batch(chk: Check, mr: ModelRun, var: Variants, cases: list[str], se
                     if values[p] != want:
                         diffs.append((f'{accessor}({p})', values[p], want))
                         break
+            # ---- the same on cursors that have moved (every accessor again, explicit offsets and the forms without argument)
+            idx = first + k
+            exh = idx < nexh
+            moved = observe_moved(cls_name, s, moved_plan(s, idx, exh))
+            chk.count(f'{cls_name}.moved-cursors', len(moved))
+            for rec in moved:
+                chk.count('moved.by.' + rec['how'])
+            diffs += moved_model_diffs(cls_name, s, moved, q1, q0, var)
             if diffs:
                 ncorr += 1
                 what, impl, model = diffs[0]
@@ -384,6 +584,16 @@ def run_case_batch(chk: Check, mr: ModelRun, var: Variants, cases: list[str], se
                         s, lambda t: any(f[0] == sig for f in oracle_findings(cls_name, t, observe(cls_name, t, len(t) + 1))))
                     f = [f for f in oracle_findings(cls_name, small, observe(cls_name, small, len(small) + 1)) if f[0] == sig][0]
                     seen_sigs[sig] = (f[1], {'oracle': 'reference by regex split', 'class': cls_name, 'text': small, **f[2]})
+                w, rep = seen_sigs[sig]
+                chk.violation(sig, w, rep)
+            for sig, what, detail in moved_findings(cls_name, s, idx, exh, obs, moved):
+                if sig not in seen_sigs:
+                    small = vlib.shrink_string(s, lambda t: any(f[0] == sig for f in moved_findings(cls_name, t, idx, True)))
+                    fs = [f for f in moved_findings(cls_name, small, idx, True) if f[0] == sig] or [(sig, what, detail)]
+                    if fs[0][1] is what:
+                        small = s
+                    seen_sigs[sig] = (fs[0][1], {'oracle': 'a cursor that has moved answers like a fresh one', 'class': cls_name,
+                                                 'text': small, 'moved_case_index': idx, **fs[0][2]})
                 w, rep = seen_sigs[sig]
                 chk.violation(sig, w, rep)
     return ncorr, nspec
@@ -519,6 +729,377 @@ def shard_parseinfo(col, shard_i, ngrammars, ninputs):
                               {'oracle': 'parseinfo delimits', 'case': c.describe(), 'parseinfo': inf, 'problems': problems})
     if cases:
         col.sample(cases[len(cases) // 2].describe())
+
+
+# ------------------------------------------------------------------ parse information under OBSERVERS and other inputs
+# shard_parseinfo parses a str with parseinfo on and nothing else.  This family mirrors its generator (other cases: its
+# own random stream) and parses every case again under configurations that must not change the result:
+#   * trace=True (the ConsoleTracer is handed the parser's LIVE cursor at every rule entry/exit, token and cut),
+#     with colorize on/off, trace_filename (asks the cursor for lineinfo()), short trace_length, memoization off;
+#   * the text handed over as a legacy Buffer with the same whitespace/comments (and that traced as well);
+# O1 (correspondence): plain str parse vs the engine model (E1 with parseinfo, as shard_parseinfo); every variant vs
+#     the plain parse: outcome, value, rule/pos/endpos/line/endline of every dict, and for failures the exception
+#     class, offset and FailedParse.info.
+# O2 (oracle, implementation only): the cursor kept in every ParseInfo - it has MOVED (it rests where the rule ended) -
+#     answers lineinfo(pos)/lineat(pos)/poscol(pos), lineinfo(endpos)/lineat(endpos) like a fresh cursor and like the
+#     split of the text, agrees with the record's line/endline, and holds the text that was parsed.
+OBSERVERS = [
+    ('trace', {'trace': True, 'colorize': False}),
+    ('trace', {'trace': True}),
+    ('trace+colorize', {'trace': True, 'colorize': True}),
+    ('trace+filename', {'trace': True, 'colorize': False, 'trace_filename': True}),
+    ('trace+short', {'trace': True, 'colorize': False, 'trace_length': 4}),
+    ('trace+nomemo', {'trace': True, 'colorize': False, 'memoization': False}),
+    ('colorize', {'colorize': True}),
+]
+
+
+def gen_pinfo_grammar(rng):
+    """the generator of shard_parseinfo (every rule yields a dict, optional empties, @nomemo, comments) + rules that END in
+    a rule call, a cut, a closure or an optional (what follows the last token is where observers may leak into endpos)"""
+    import enginegen as G
+    cfg = G.GenCfg(names=0.3, overrides=0.0, dots=0.0, skipto=0.0, consts=0.0, cuts=rng.choice([0.04, 0.12]))
+    g = G.gen_grammar(rng, cfg, depth=rng.choice([2, 3]))
+    names = [n for n, _, _ in g['rules']]
+    rules = []
+    for i, (n, d, e) in enumerate(g['rules']):
+        later = names[i + 1:]
+        r = rng.random()
+        if later and r < 0.35:
+            tail = rng.choice([('call', rng.choice(later)), ('seq', [('call', rng.choice(later)), 'cut']),
+                               ('rep', False, None, False, ('call', rng.choice(later))), ('opt', ('call', rng.choice(later))),
+                               ('named', False, 'last', ('call', rng.choice(later)))])
+            e = ('seq', [e, tail])
+        elif r < 0.45:
+            e = ('seq', [e, 'cut'])
+        body = ('named', False, 'val', ('group', e)) if rng.random() < 0.7 else e
+        if i > 0 and rng.random() < 0.25:
+            body = ('seq', [('named', False, 'opt', ('opt', ('tok', 'zz'))), body]) if rng.random() < 0.5 else ('named', False, 'opt', ('opt', ('tok', 'zz')))
+        if i > 0 and rng.random() < 0.25:
+            d = list(d) + ['nomemo']
+        rules.append((n, d, body))
+    g['rules'] = rules
+    both = rng.random() < 0.6
+    if both or rng.random() < 0.3:
+        g['directives']['comments'] = r'\(\*.*?\*\)'
+    if both or rng.random() < 0.3:
+        g['directives']['eol_comments'] = r'#[^\n]*'
+    gaps = [' ', ' ', '\n', '\r\n', '  ', '\t', '\r', ' \n ']
+    if 'comments' in g['directives']:
+        gaps += [' (* c *) ', '(* c *)']
+    if 'eol_comments' in g['directives']:
+        gaps += [' # e\n', '# e\n']
+    if both:
+        gaps += ['(* c *)# e\n', ' (* c *)# e\n ', '# e\n(* c *)']
+    return g, gaps
+
+
+def _pinfo_tuple(pi):
+    return ['info', pi.rule if isinstance(pi.rule, str) else {'other': type(pi.rule).__name__}, pi.pos, pi.endpos, pi.line, pi.endline]
+
+
+def cursor_idiom_problems(v, text: str) -> list:
+    """O2 on a raw result: [(problem, parseinfo, detail)]"""
+    from tatsu.contexts.ast import AST
+    out = []
+    seen = set()
+
+    def li(x):
+        return (x.line, x.col, x.start, x.end, x.text) if hasattr(x, 'col') else x
+
+    def judge(pi):
+        c = pi.cursor
+        info = _pinfo_tuple(pi)
+        if c is None or not (isinstance(pi.pos, int) and isinstance(pi.endpos, int) and 0 <= pi.pos <= pi.endpos <= len(text)):
+            return
+        key = (id(c), c.pos, pi.pos, pi.endpos)
+        if key in seen:
+            return
+        seen.add(key)
+        if getattr(c, 'textstr', None) != text:
+            out.append(('cursor-text', info, None))
+            return
+        stands = c.pos
+        fresh = c.input.newcursor()
+        for which, p, recorded in (('pos', pi.pos, pi.line), ('endpos', pi.endpos, pi.endline)):
+            for name in ('lineinfo', 'lineat', 'poscol'):
+                got, want = _call(getattr(c, name), p), _call(getattr(fresh, name), p)
+                if got != want:
+                    cls0 = 'zero' if p == 0 else ('end' if p >= len(text) else 'mid')
+                    out.append((f'{name}({which})-{cls0}:differs-from-a-fresh-cursor', info,
+                                {'cursor stands at': stands, 'offset': p, 'got': got, 'fresh cursor': want}))
+                if p < len(text):
+                    ref = ref_info(text, p, 'clamp')
+                    w2 = ref if name == 'lineinfo' else (ref[0] if name == 'lineat' else ref[1])
+                    if got != w2:
+                        out.append((f'{name}({which}):differs-from-the-split', info, {'offset': p, 'got': got, 'split': w2}))
+            if _call(c.lineat, p) != recorded:
+                out.append((f'record-{"line" if which == "pos" else "endline"}-is-not-lineat({which})', info,
+                            {'offset': p, 'lineat': _call(c.lineat, p), 'recorded': recorded}))
+        if c.pos != stands:
+            out.append(('accessors-move-the-cursor', info, None))
+
+    def go(x):
+        if isinstance(x, (AST, dict)):
+            for k in PINFO_KEYS:
+                pi = x.get(k)
+                if pi is not None:
+                    judge(pi)
+            for k, y in x.items():
+                if k not in PINFO_KEYS:
+                    go(y)
+        elif isinstance(x, (list, tuple)):
+            for y in x:
+                go(y)
+    go(v)
+    return out
+
+
+def observed_parse(model, text: str, kw: dict, as_buffer=None):
+    """-> (outcome, O2 problems); outcome = ('ok', canon) | ('fail', [class, offset, info]) | ('exc', name) | ..."""
+    import contextlib
+    import io
+    import enginelib as E
+    import enginerun as R
+    from tatsu.exceptions import FailedParse
+
+    def target():
+        src = text
+        if as_buffer is not None:
+            from tatsu.input.buffer import Buffer
+            src = Buffer(text, **as_buffer)
+        try:
+            with contextlib.redirect_stderr(io.StringIO()), contextlib.redirect_stdout(io.StringIO()):
+                v = model.parse(src, **kw)
+            return ('ok', E.canon(v)), cursor_idiom_problems(v, text)
+        except FailedParse as e:
+            inf = getattr(e, 'info', None)
+            return ('fail', [type(e).__name__, getattr(e, 'pos', None),
+                             [inf.line, inf.col, inf.start, inf.end, inf.text] if inf is not None else None]), []
+        except RecursionError:
+            return ('recursion', None), []
+        except Exception as e:  # noqa
+            return ('exc', type(e).__name__), []
+    r = R.with_timeout(target, 4)
+    if r == ('timeout', None):
+        return r, []
+    return r
+
+
+def first_info_difference(a, b):
+    """which part of two canonical outcomes differs first: 'outcome' | 'failure' | 'value' | 'info.<fields>'"""
+    if a[0] != b[0]:
+        return 'outcome'
+    if a[0] == 'fail':
+        x, y = a[1], b[1]
+        if x[0] != y[0]:
+            return 'failure.class'
+        if x[1] != y[1]:
+            return 'failure.offset'
+        return 'failure.info'
+    found = []
+
+    def go(x, y):
+        if found:
+            return
+        if isinstance(x, dict) and isinstance(y, dict) and sorted(x) == sorted(y):
+            for k in x:
+                if k in PINFO_KEYS and isinstance(x[k], list) and isinstance(y[k], list) and x[k] != y[k] and not found:
+                    fields = ('', 'rule', 'pos', 'endpos', 'line', 'endline')
+                    found.append('info.' + '+'.join(fields[i] for i in range(1, 6) if x[k][i] != y[k][i]))
+            for k in x:
+                if k not in PINFO_KEYS:
+                    go(x[k], y[k])
+            if not found and x != y:
+                found.append('value')
+        elif isinstance(x, list) and isinstance(y, list) and len(x) == len(y):
+            for p, q in zip(x, y):
+                go(p, q)
+        elif x != y:
+            found.append('value')
+    go(a[1], b[1])
+    return found[0] if found else 'value'
+
+
+def observer_class(inp, kw):
+    """signature class of a variant: what is being observed, not the cosmetic settings of the tracer"""
+    if kw.get('trace'):
+        return 'trace' + ('+nomemo' if kw.get('memoization') is False else '')
+    if kw.get('colorize'):
+        return 'colorize'
+    return inp + '-input'
+
+
+def buffer_config(model, text, settings):
+    """the Buffer that scans like the str input of this parse: same whitespace, comments, name settings"""
+    import enginelib as E
+    eff = E.effective_config(model, text, settings)
+    cfg = {'whitespace': eff.whitespace, 'nameguard': eff.nameguard, 'ignorecase': eff.ignorecase, 'namechars': eff.namechars}
+    if eff.comments:
+        cfg['comments'] = eff.comments
+    if eff.eol_comments:
+        cfg['eol_comments'] = eff.eol_comments
+    return cfg
+
+
+def shard_observed(col, shard_i, ngrammars, ninputs):
+    import random
+    import enginelib as E
+    import enginegen as G
+    import enginerun as R
+    mr = ModelRun('Engine')
+    rng = random.Random(f'{col.pid}-{col.seed}-observed-{shard_i}')     # not the stream of shard_parseinfo: other cases
+    cases = []
+    for gi in range(ngrammars):
+        g, gaps = gen_pinfo_grammar(rng)
+        for _ in range(ninputs):
+            lex = G.sample_sentence(rng, g, g['rules'][0][2])
+            t = G.join_lexemes(rng, lex, gaps=tuple(gaps))
+            t = rng.choice(['', '', ' ', '\n'] + gaps[-2:]) + t + rng.choice(['', '\n', '\r\n', ' \n', '\r', '  '] + gaps[-1:])
+            if rng.random() < 0.12 and t:
+                k = rng.randrange(len(t))
+                t = t[:k] + rng.choice(['?', '', 'a ', '\n?']) + t[k + 1:]        # a failing parse now and then: FailedParse.info
+            cases.append(R.Case(g, t[:60], None, E.Settings(parseinfo=True)))
+    results = []
+    for off in range(0, len(cases), 400):
+        results += R.run_cases(mr, cases[off:off + 400])
+    reported = 0
+    for ci, (c, io, mo, extra) in enumerate(results):
+        fp = ['observed', E.grammar_text(c.g), c.text]
+        model = R.compile_grammar(c.g)
+        if mo is None or isinstance(model, tuple):
+            col.case(fp, nontrivial=False)
+            continue
+        text = c.text
+        base_kw = c.settings.kwargs()
+        plain, idiom = observed_parse(model, text, base_kw)
+        ninfo = []
+        if plain[0] == 'ok':
+            _walk_infos(plain[1], ninfo)
+        col.case(fp, nontrivial=bool(ninfo) or plain[0] == 'fail')
+        col.count('observed.plain.' + plain[0])
+        col.count('observed.parseinfo.entries', len(ninfo))
+        # ---- O1a: plain vs engine model (E1 with parseinfo on these cases too)
+        if mo[0] != 'recursion' and io != mo and io[0] != 'timeout':
+            def bad0(cc):
+                rr = R.run_cases(mr, [cc])[0]
+                return rr[2] is not None and rr[2][0] != 'recursion' and rr[1] != rr[2]
+            small = R.shrink_case(c, bad0, budget=120) if reported < 3 else c
+            reported += 1
+            rr = R.run_cases(mr, [small])[0]
+            col.violation(f'E1pinfo:{R.kinds_signature(small)}:{sorted(small.g["directives"])}:impl={rr[1][0]}:model={rr[2][0] if rr[2] else None}',
+                          'implementation and engine model disagree with parseinfo on (value or parseinfo entries)',
+                          {'correspondence': 'E1 with parseinfo', 'case': small.describe(), 'impl': rr[1], 'model': rr[2]})
+        # ---- O2: the cursors kept in the parse information
+        for problem, info, detail in idiom[:1]:
+            col.violation('oracle:parseinfo.cursor:' + problem,
+                          f'the cursor kept in parseinfo {info} (it stands where the rule ended) does not answer like a fresh cursor',
+                          {'oracle': 'cursor of the parse information', 'case': c.describe(), 'parseinfo': info, 'detail': detail,
+                           'problems': [p[0] for p in idiom[:6]]})
+        if plain[0] in ('timeout', 'recursion'):
+            continue
+        # ---- O1b: every observer / input variant vs the plain parse
+        try:
+            bcfg = buffer_config(model, text, c.settings)
+        except Exception:  # noqa
+            bcfg = None
+        variants = []
+        k0 = ci + shard_i
+        for j in range(2):
+            name, kw = OBSERVERS[(k0 + 3 * j) % len(OBSERVERS)] if j else OBSERVERS[k0 % 2]
+            variants.append((name, 'str', dict(base_kw, **kw), None))
+        if bcfg is not None:
+            variants.append(('plain', 'Buffer', dict(base_kw), bcfg))
+            name, kw = OBSERVERS[(k0 + 1) % 5]
+            variants.append((name, 'Buffer', dict(base_kw, **kw), bcfg))
+        buf_plain = None
+        for name, inp, kw, bc in variants:
+            got, idiom_v = observed_parse(model, text, kw, as_buffer=bc)
+            col.count(f'observed.{inp}.{name}.{got[0]}')
+            if got[0] in ('timeout', 'recursion'):
+                continue
+            if inp == 'Buffer' and name == 'plain':
+                buf_plain = got
+            ref = plain if not (inp == 'Buffer' and name != 'plain' and buf_plain is not None and buf_plain != plain) else buf_plain
+            against = 'the plain parse of the str' if ref is plain else 'the plain parse of the Buffer'
+            for problem, info, detail in idiom_v[:1]:
+                col.violation(f'oracle:parseinfo.cursor:{problem}' + ('' if inp == 'str' else ':Buffer'),
+                              f'the cursor kept in parseinfo {info} ({inp} input, {name}) does not answer like a fresh cursor',
+                              {'oracle': 'cursor of the parse information', 'case': c.describe(), 'settings': kw, 'input': inp,
+                               'parseinfo': info, 'detail': detail})
+            if got != ref:
+                def bad(cc, kw=kw, inp=inp, name=name):
+                    m2 = R.compile_grammar(cc.g)
+                    if isinstance(m2, tuple):
+                        return False
+                    bc2 = None
+                    if inp == 'Buffer':
+                        try:
+                            bc2 = buffer_config(m2, cc.text, cc.settings)
+                        except Exception:  # noqa
+                            return False
+                    a, _ = observed_parse(m2, cc.text, base_kw, as_buffer=bc2 if name != 'plain' else None)
+                    b, _ = observed_parse(m2, cc.text, kw, as_buffer=bc2)
+                    return a[0] in ('ok', 'fail') and b[0] not in ('timeout', 'recursion') and a != b
+                small = c
+                if reported < 3 and bad(c):
+                    small = R.shrink_case(c, bad, budget=150)
+                reported += 1
+                m2 = R.compile_grammar(small.g)
+                bc2 = buffer_config(m2, small.text, small.settings) if inp == 'Buffer' else None
+                a, _ = observed_parse(m2, small.text, base_kw, as_buffer=bc2 if name != 'plain' else None)
+                b, _ = observed_parse(m2, small.text, kw, as_buffer=bc2)
+                if a == b:
+                    a, b, small = ref, got, c
+                what = first_info_difference(a, b)
+                col.violation(f'observer:{observer_class(inp, kw)}:{what}',
+                              f'parsing with {name} ({inp} input) gives another result than {against}: {what} differs',
+                              {'correspondence': 'O1 observers and inputs leave the parse information alone', 'case': small.describe(),
+                               'variant_settings': kw, 'input': inp, 'buffer_config': bc2, 'plain': a, 'variant': b,
+                               'observed_case': {'g': small.g, 'text': small.text, 'kw': kw, 'input': inp, 'name': name}})
+    if cases:
+        col.sample(dict(cases[len(cases) // 2].describe(), family='observed'))
+
+
+def observed_family(chk: Check):
+    chk.rule += (' Observers: grammars as for the parse information of rules plus rules that end in a rule call / cut / closure / '
+                 'optional x sentences with blanks, CR, LF, CRLF, comments and a few spoiled ones, each parsed plain, under '
+                 'trace=True (colorize on/off, trace_filename, short trace_length, memoization off) and from a legacy Buffer; '
+                 'non-trivial: the result has parse information or is a parse failure.')
+    chk.assumptions += ['a Buffer built with the whitespace/comments/name settings the grammar resolves to must parse like the str '
+                        '(both input implementations); tracing and colorizing are observers (same value, parse information and failure)']
+    rep = json.loads(Path(chk.replay).read_text()) if chk.replay else None
+    if rep is None:
+        vlib.run_sharded(chk, shard_observed, 14, extra=((8, 8) if chk.quick else (50, 12)))
+    elif 'observed_case' in rep:
+        replay_observed_case(chk, rep['observed_case'])
+    chk.obligation('O1: parse information (and failures) are the same under trace/colorize/trace_filename and from a Buffer as in the '
+                   'plain parse of the str, which is compared with the engine model', 'correspondence',
+                   not any(v['signature'].startswith(('observer:', 'E1pinfo')) for v in chk.violations))
+    chk.obligation('O2: the cursor kept in every ParseInfo answers lineinfo/lineat/poscol of pos and endpos like a fresh cursor and '
+                   'like the split of the text (implementation only)', 'oracle',
+                   not any(v['signature'].startswith('oracle:parseinfo.cursor') for v in chk.violations))
+
+
+def replay_observed_case(chk, oc):
+    import enginelib as E
+    import enginerun as R
+    g = oc['g']
+    c = R.Case(g, oc['text'], None, E.Settings(parseinfo=True))
+    model = R.compile_grammar(g)
+    chk.case(['observed-replay', json.dumps(oc, sort_keys=True, default=str)])
+    if isinstance(model, tuple):
+        return
+    bc = buffer_config(model, c.text, c.settings) if oc['input'] == 'Buffer' else None
+    a, ia = observed_parse(model, c.text, c.settings.kwargs(), as_buffer=bc if oc['name'] != 'plain' else None)
+    b, ib = observed_parse(model, c.text, oc['kw'], as_buffer=bc)
+    for problem, info, detail in (ia + ib)[:1]:
+        chk.violation('oracle:parseinfo.cursor:' + problem, f'the cursor kept in parseinfo {info} does not answer like a fresh cursor',
+                      {'observed_case': oc, 'detail': detail})
+    if a != b:
+        what = first_info_difference(a, b)
+        chk.violation(f'observer:{observer_class(oc["input"], oc["kw"])}:{what}', f'parsing with {oc["name"]} ({oc["input"]} input) differs: {what}',
+                      {'observed_case': oc, 'plain': a, 'variant': b})
 
 
 # ------------------------------------------------------------------ parse information of MODEL NODES (object model part)
@@ -957,8 +1538,12 @@ def run_typed(g, types, text, flavour, settings):
         declared = ds[1]
 
     def target():
+        import contextlib
+        import io
         try:
-            return ('ok', canon_nodes(model.parse(text, **kw)))
+            with contextlib.redirect_stderr(io.StringIO()), contextlib.redirect_stdout(io.StringIO()):      # trace=True prints
+                v = model.parse(text, **kw)
+            return ('ok', canon_nodes(v))
         except FailedParse:
             return ('fail', None)
         except RecursionError:
@@ -1077,6 +1662,10 @@ def shard_nodes(col, shard_i, ngrammars, ninputs):
             settings = {} if 'parseinfo' in g['directives'] else {'parseinfo': True}
             if rng.random() < 0.3:
                 settings['memoization'] = False
+            if (gi * 5 + ii + shard_i) % 6 == 0:
+                # an observer: the tracer is handed the live cursor; the nodes must come out as the (untraced) model says
+                settings['trace'] = True
+                settings['colorize'] = (gi + ii) % 4 == 0
             flavour = flavours[(gi + ii) % 3] if rng.random() < 0.8 else rng.choice(flavours)
             res = node_case(mr, g, types, t, flavour, settings)
             last = {'grammar': typed_grammar_text(g, types), 'text': t, 'flavour': flavour, 'settings': settings}
@@ -1175,7 +1764,9 @@ def main():
     chk.rule = ('every string over {a, space, LF, CR} up to length 5 (quick) / 6 (thorough) and random texts up to length 41 '
                 'with CRLF pairs and VT FF FS GS RS NEL LS PS, each at every offset 0..len+1, for TextLines and Buffer, every '
                 'accessor (cursor.lineinfo/lineat/poscol/line/col, Buffer.lineinfo/posline/poscol/line/col, linecount, '
-                'lines, line cache). Non-trivial: the text contains a line break; distinct by class and text.')
+                'lines, line cache), asked of a fresh cursor and of cursors parked at every offset (short texts) / three offsets '
+                '(long texts) by goto, move, next, clone, copy, the constructor, or from the end - with explicit offsets and '
+                'without argument, get_line/get_lines too. Non-trivial: the text contains a line break; distinct by class and text.')
     chk.trusted += ['Python str.splitlines / re (the model of splitlines is compared with it; its table of line break '
                     'characters is compared over every code point)',
                     'modelled: splitlines(True), PosLine.build_line_cache, lineinfo/lineat/poscol/posline of both input '
@@ -1201,18 +1792,25 @@ def main():
         if chk.replay:
             rep = json.loads(Path(chk.replay).read_text())
             cases = [rep.get('text', '')]
+            first0 = int(rep.get('moved_case_index', 0))
         else:
+            first0 = 0
             cases = gen_cases(chk)
+        nexh = 10 ** 9 if chk.replay else len(list(vlib.all_strings(ALPHA, 5 if chk.quick else 6)))
         seen: dict = {}
         ncorr = nspec = 0
         for i in range(0, len(cases), 2000):
-            a, b = run_case_batch(chk, mr, var, cases[i:i + 2000], seen)
+            a, b = run_case_batch(chk, mr, var, cases[i:i + 2000], seen, first=first0 + i, nexh=nexh)
             ncorr += a
             nspec += b
         chk.obligation('L1:TextLines and Buffer vs LineCache.v on every text x offset', 'correspondence', ncorr == 0,
                        f'{ncorr} texts differ')
         chk.obligation('S1:Coq specification spec_info/spec_line = Python reference by regex split', 'correspondence',
                        nspec == 0, f'{nspec} differ')
+        chk.obligation('a cursor (or Buffer) that has MOVED - by goto, move, next, clone, copy, its constructor, to the end and back - '
+                       'answers every explicit offset like a fresh one and the forms without argument for its own position; no '
+                       'accessor moves it (implementation only; the same answers are compared with LineCache.v under L1)', 'oracle',
+                       not any(v['signature'].startswith('state:') for v in chk.violations))
         replay_witnesses(chk)
         ok2, out2 = vlib.build_modelrun('Engine')
         chk.obligation('modelrun_Engine builds', 'build', ok2, out2[-500:])
@@ -1223,6 +1821,7 @@ def main():
             chk.obligation('parseinfo delimits the consumed text and its line matches the start offset (implementation only)', 'oracle',
                            not any(v['signature'].startswith('oracle:parseinfo') for v in chk.violations))
         if ok2:
+            observed_family(chk)          # the same parse information under trace/colorize and from a Buffer; ParseInfo.cursor (O1, O2)
             object_model_family(chk)      # model nodes of typed rules (N1, N2)
         chk.sample({'text': 'a\r\nb', 'reference': [ref_info('a\r\nb', p, 'editor') for p in range(5)]})
         chk.exhaustive = False
